@@ -582,17 +582,37 @@ def updOf (ins updc : List String) (i : Nat) : Bool :=
   | some c => updc.contains c
   | none => true
 
-/-- storage.VolumeManager: persisted volume row, whether its file can be opened, the `available` flag -/
+/-- storage.VolumeManager: persisted volume row, whether its data file can be opened right now, the
+`available` flag, and `room`: writable (not read-only) with a free slot -/
 structure Vol where
   id : Nat
   fileOk : Bool
   available : Bool
+  room : Bool := true
 deriving DecidableEq, Repr
 
-/-- `loadVolumes` (host/storage/storage.go:107): open the file, `SetAvailable(id, opened)` -/
+/-- `loadVolumes` (host/storage/storage.go:107): open the file, `SetAvailable(id, opened)` — whatever the flag was -/
 def restartVols (vs : List Vol) : List Vol := vs.map fun v => { v with available := v.fileOk }
 
+/-- a `loadVolumes` that only confirms volumes which already are available (to show what the rule excludes) -/
+def restartVolsSticky (vs : List Vol) : List Vol := vs.map fun v => { v with available := v.fileOk && v.available }
+
 def observeVols (vs : List Vol) : List (Nat × Bool) := vs.map fun v => (v.id, v.available)
+
+/-- what happens to volumes between and at restarts: a data file disappears or comes back; the host restarts -/
+inductive VEv where
+  | setFile (id : Nat) (ok : Bool)
+  | restart
+deriving Repr
+
+def vstep (vs : List Vol) : VEv → List Vol
+  | .setFile id ok => vs.map fun v => if v.id = id then { v with fileOk := ok } else v
+  | .restart => restartVols vs
+
+def vrun (vs : List Vol) (evs : List VEv) : List Vol := evs.foldl vstep vs
+
+/-- `emptyLocation`: a sector can be stored iff some available, writable volume has a free slot -/
+def canWrite (vs : List Vol) : Bool := vs.any fun v => v.available && v.room
 
 /-- what each constructor does (read from the code) -/
 structure Ctor where
